@@ -13,29 +13,31 @@ from .. import core, terms as T, irspace, irtools, loopspace as LS, extraspace a
 
 LEVEL = 'exploration'
 RULE = ('every well-typed term of the stated profiles (alphabet of constructors x leaves x parameters, breadth-first by depth) '
-        'is built as a real evaluable node, simplified under a 20000-step rewrite budget, and raw / simplified / reference values are '
+        'is built as a real evaluable node, simplified under a 5000-step rewrite budget, and raw / simplified / reference values are '
         'compared on 3 fixed float valuation sets x all {0,1} valuations of int/bool arguments; non-trivial = distinct term whose '
         'simplified form is a different node than the term itself and that has at least one in-domain valuation')
 ASSUMPTIONS = ['numpy is the reference semantics of each constructor (vmc.terms.ref, validated against the unsimplified evaluation at depth 1)',
                'float inputs are fixed dyadic valuations away from kinks and singular matrices; the program axis is what is exhausted',
-               'termination: a run that exceeds 20000 rewrite steps is reported as divergence (largest terminating run is in the evidence)']
+               'termination: a run that exceeds 5000 rewrite steps is reported as divergence (largest terminating run is in the evidence)']
 BUDGET_S = {'quick': 420, 'thorough': 5400}
-STEP_BUDGET = 20000
-HANG_S = 20   # backstop for non-termination inside one rewrite rule (between two counted steps)
+STEP_BUDGET = 5000    # largest terminating run observed: 172 steps (evidence: max_rewrite_steps)
+NONTERM = 'simplification does not terminate within the budget ({} rewrite steps / {} s inside one rule)'.format(STEP_BUDGET, 8)
+HANG_S = 8   # backstop for non-termination inside one rewrite rule (between two counted steps)
 
+D3_QUICK_OPS = ['abs', 'add', 'diagonalize', 'inflate', 'multiply', 'powc', 'sum', 'take', 'takediag', 'transpose']   # the structural heart of the rewrite core; the full core is complete to depth 2 (quick) / depth 3 (thorough)
 PROFILES = {
     'quick': [
         {'name': 'd2-all', 'leaves': 'f5', 'consts': False, 'ops': 'all', 'depth': 2},
         {'name': 'd2-mixed', 'leaves': 'mixed', 'consts': True, 'ops': 'all', 'depth': 1},
         {'name': 'd1-int', 'leaves': 'int', 'consts': False, 'ops': 'all', 'depth': 1},
-        {'name': 'd3-core', 'leaves': 'aA', 'consts': False, 'ops': 'core', 'depth': 3, 'binary': True},
+        {'name': 'd3-core', 'leaves': 'aA', 'consts': False, 'ops': D3_QUICK_OPS, 'depth': 3, 'binary': True},
     ],
     'thorough': [
         {'name': 'd2-all', 'leaves': 'all', 'consts': True, 'ops': 'all', 'depth': 2},
         {'name': 'd3-core', 'leaves': 'sq', 'consts': False, 'ops': 'core', 'depth': 3},
     ],
 }
-NPARTS = {'quick': {1: 1, 2: 24, 3: 240}, 'thorough': {1: 2, 2: 200, 3: 1500}}
+NPARTS = {'quick': {1: 1, 2: 32, 3: 96}, 'thorough': {1: 2, 2: 200, 3: 1500}}
 
 
 LOOP_CHUNK = 150
@@ -46,7 +48,7 @@ def shards(tier, seed):
     n = len(LS.programs(tier))
     for lo in range(0, n, LOOP_CHUNK):
         out.append({'kind': 'loops', 'lo': lo, 'hi': min(n, lo + LOOP_CHUNK)})
-    out += [{'kind': 'extra', 'lo': lo, 'hi': lo + 160} for lo in range(0, len(XS.terms(tier)), 160)]
+    out += [{'kind': 'extra', 'lo': lo, 'hi': lo + 40} for lo in range(0, len(XS.terms(tier)), 40)]
     return out + irspace.shards(PROFILES[tier], NPARTS[tier])
 
 
@@ -59,7 +61,7 @@ def _on_alarm(signum, frame):
 
 
 def check_term(term, nsets=3, res=None):
-    '''returns None or (kind, what). kind in cycle | diverged | hang | simplify-assert | simplify-exception |
+    '''returns None or (kind, what). kind in cycle | nonterminating | simplify-assert | simplify-exception |
     shape | dtype | value | eval-exception'''
     from nutils import evaluable
     try:
@@ -67,6 +69,15 @@ def check_term(term, nsets=3, res=None):
     except Exception as e:
         return ('build', 'constructor raised {!r}'.format(e))
     shape, kind = T.typeof(term)
+    envs = T.valuations(T.arguments(term), nsets=nsets)
+    defined = False
+    for env in envs:
+        try:
+            if numpy.isfinite(T.ref(term, env)).all():
+                defined = True
+                break
+        except T.OutOfDomain:
+            pass
     old = signal.signal(signal.SIGALRM, _on_alarm)
     signal.alarm(HANG_S)
     try:
@@ -74,16 +85,20 @@ def check_term(term, nsets=3, res=None):
             try:
                 simple = node.simplified
             except irtools.Diverged as e:
-                return ('diverged', 'simplification exceeded {} rewrite steps; last rewrites {}'.format(STEP_BUDGET, _cycle(c['trace'])))
+                return ('nonterminating', NONTERM)
             except _Alarm:
-                return ('hang', 'simplification did not return within the backstop time (more than 1000 rewrite steps: {})'.format(c['n'] > 1000))
+                return ('nonterminating', NONTERM)
             except AssertionError as e:
+                if not defined:
+                    return None   # the original is undefined on every valuation (e.g. a constant index out of range): outside the statement
                 return ('simplify-assert', 'assertion in simplifier: {}'.format(str(e)[:300]))
             except RecursionError as e:
-                return ('diverged', 'RecursionError during simplification')
+                return ('nonterminating', NONTERM)
             except Exception as e:
                 if 'caught in a loop' in str(e):
                     return ('cycle', '{} (rewrite cycle {})'.format(e, _cycle(c['trace'])))
+                if not defined:
+                    return None   # constant folding of an undefined program may raise
                 return ('simplify-exception', 'simplifier raised {!r}'.format(e))
             steps = c['n']
     finally:
@@ -96,6 +111,10 @@ def check_term(term, nsets=3, res=None):
         if res is not None:
             res.count('already_simple')
         return None
+    if not defined:
+        if res is not None:
+            res.count('undefined_programs')
+        return None
     if simple.ndim != len(shape) or KIND(simple.dtype) != kind:
         return ('dtype' if simple.ndim == len(shape) else 'shape', 'simplified form has ndim {} dtype {} but the term has {} {}'.format(simple.ndim, simple.dtype.__name__, len(shape), kind))
     try:
@@ -104,7 +123,7 @@ def check_term(term, nsets=3, res=None):
     except Exception as e:
         return ('eval-exception', 'compile raised {!r}'.format(e))
     nontrivial = False
-    for env in T.valuations(T.arguments(term), nsets=nsets):
+    for env in envs:
         try:
             r = T.ref(term, env)
         except T.OutOfDomain:
@@ -213,8 +232,8 @@ def signature(term, fail):
     if kind == 'cycle':
         cls = what.split('.simplified')[0].split(' ')[-1] if '.simplified' in what else '?'
         return 'cycle:{}:{}'.format(cls, '+'.join(sorted(opset(m)))), m
-    if kind in ('diverged', 'hang'):
-        return '{}:{}'.format(kind, '+'.join(sorted(opset(m)))), m
+    if kind == 'nonterminating':
+        return 'nonterminating:{}'.format('+'.join(sorted(opset(m)))), m
     return '{}:{}'.format(kind, abstract(m)), m
 
 
@@ -226,7 +245,7 @@ def run_shard(spec, tier, seed):
     elif spec.get('kind') == 'extra':
         terms = [t for fam, t in XS.terms(tier)[spec['lo']:spec['hi']]]
     else:
-        terms = irspace.shard_terms(spec['profile'], spec['level'], spec['part'], spec['nparts'])
+        terms = (c for t in irspace.shard_terms(spec['profile'], spec['level'], spec['part'], spec['nparts']) for c in T.closures(t))
     term = None
     for term in terms:
         res.count('states')
